@@ -68,10 +68,28 @@ def rule_address_modulo(chk, facts, P):
         return mentions(e, lambda x: isinstance(x, (list, tuple)) and len(x) > 1 and x[0] == 'call' and
                         callee_name(x) in ('EProgCounter', 'ProgCounter'))
     n = 0
+    # parameters of same-unit helpers that receive a program-counter value (rounding moved into a helper)
+    pcparams = {}
+    for f in P.all_funcs():
+        if is_generator_unit(f.unit.name) or f.entry is None:
+            continue
+        for b, i, ln, c in f.calls():
+            g = f.unit.funcs.get(callee_name(c) or '')
+            if g is None or g is f or g.entry is None:
+                continue
+            for ai, a in enumerate(c[2]):
+                if ai < len(g.params) and pc_call(a):
+                    pcparams.setdefault(g.qname, set()).add(ai)
     for f in P.all_funcs():
         if is_generator_unit(f.unit.name):
             continue
         pcvars, narrowed = set(), {}
+        for ai in pcparams.get(f.qname, ()):
+            pv = ('p', f.params[ai]['name'])
+            pcvars.add(pv)
+            bits = f.params[ai]['type'].get('bits')
+            if isinstance(bits, int) and bits < 0 and abs(bits) < 64:
+                narrowed[pv] = (f.line, bits, 64)
         for b, i, ln, m in f.nodes():
             if m[0] == 'decl' and m[2] is not None and pc_call(m[2]):
                 m = ('b', '=', ('l', m[1]), m[2])
@@ -90,13 +108,13 @@ def rule_address_modulo(chk, facts, P):
             grew = False
             for b, i, ln, m in f.nodes():
                 if is_assign(m) and m[1] == '=' and strip(m[2])[0] == 'l' and strip(m[2]) not in pcvars and \
-                        mentions(m[3], lambda x: isinstance(x, (list, tuple)) and len(x) == 2 and x[0] == 'l' and tuple(x) in pcvars):
+                        mentions(m[3], lambda x: isinstance(x, (list, tuple)) and len(x) == 2 and x[0] in ('l', 'p') and tuple(x) in pcvars):
                     pcvars.add(strip(m[2]))
                     grew = True
         for b, i, ln, m in f.nodes():
             if m[0] == 'b' and m[1] in ('%', '%='):
                 d = strip(m[2])
-                if not (pc_call(m[2]) or d in pcvars or mentions(m[2], lambda x: isinstance(x, (list, tuple)) and len(x) == 2 and x[0] == 'l' and tuple(x) in pcvars)):
+                if not (pc_call(m[2]) or d in pcvars or mentions(m[2], lambda x: isinstance(x, (list, tuple)) and len(x) == 2 and x[0] in ('l', 'p') and tuple(x) in pcvars)):
                     continue
                 n += 1
                 ok = d not in narrowed
